@@ -626,10 +626,14 @@ impl RawAutomaton {
                 automaton.transitions.len(),
                 nb_states,
             );
-            if automaton.nothing_after_final() {
+            if automaton.nothing_after_final()
+                && !automaton.final_states.contains(&automaton.initial_state)
+            {
                 // In this branch, an optimisation can be done to save one state and one
                 // transition (redirect transitions pointing to the final states of `automaton`
-                // towards `concat_automaton.initial_state`).
+                // towards `concat_automaton.initial_state`). This is not possible if the
+                // initial state of `automaton` is final (i.e., `automaton` only accepts the
+                // empty word), since no transition points to it: the general case applies.
                 for succ in transitions.iter_mut() {
                     for (_, target) in succ {
                         if automaton.final_states.contains(&(*target - nb_states)) {
